@@ -13,6 +13,7 @@ thread_local! {
     static QUEUE: RefCell<std::collections::VecDeque<Vec<u8>>> = RefCell::new(Default::default());
     static EXHAUSTED: RefCell<bool> = RefCell::new(false);
     static COVERED: RefCell<Vec<&'static str>> = RefCell::new(Vec::new());
+    static FAILED: RefCell<Vec<&'static str>> = RefCell::new(Vec::new());
 }
 
 #[cfg(not(kani))]
@@ -20,6 +21,17 @@ pub fn native_load(vals: Vec<Vec<u8>>) {
     QUEUE.with(|q| *q.borrow_mut() = vals.into());
     EXHAUSTED.with(|e| *e.borrow_mut() = false);
     COVERED.with(|c| c.borrow_mut().clear());
+    FAILED.with(|c| c.borrow_mut().clear());
+}
+
+#[cfg(not(kani))]
+pub fn native_fail(msg: &'static str) {
+    FAILED.with(|c| c.borrow_mut().push(msg));
+}
+
+#[cfg(not(kani))]
+pub fn native_failed() -> Vec<&'static str> {
+    FAILED.with(|c| c.borrow().clone())
 }
 
 #[cfg(not(kani))]
@@ -50,10 +62,6 @@ fn pop(n: usize) -> Vec<u8> {
         }
     })
 }
-
-/// Payload of the panic raised natively by a failed `check!`.
-#[derive(Debug)]
-pub struct CheckFailed(pub &'static str);
 
 /// Payload of the panic raised natively by a violated `assume`.
 #[derive(Debug)]
@@ -131,18 +139,39 @@ pub fn assume(c: bool) {
 }
 
 /// `check!(cond, "Cxx[,Cyy]: text")` — a tagged property.
+///
+/// Under Kani it is a *negative cover*: `cover!(!cond)` that must come back
+/// UNSATISFIABLE.  Unlike `assert!` (which Kani follows with an `assume`), it
+/// does not cut the path, so one violated property never hides the checks of
+/// another property further down the same path; a SATISFIED one comes with its
+/// own concrete-playback vector.  Natively a failed check is recorded and
+/// execution continues.
 #[macro_export]
 macro_rules! check {
     ($c:expr, $m:literal) => {{
         #[cfg(kani)]
         {
-            assert!($c, $m);
+            kani::cover!(!($c), $m);
         }
         #[cfg(not(kani))]
         {
             if !($c) {
-                std::panic::panic_any($crate::nd::CheckFailed($m));
+                $crate::nd::native_fail($m);
             }
+        }
+    }};
+}
+
+/// `require!(cond, "Cxx: text")` — a `check!` whose failure makes the rest of
+/// the harness meaningless (e.g. a length about to be used as an index): the
+/// harness returns when it does not hold.
+#[macro_export]
+macro_rules! require {
+    ($c:expr, $m:literal) => {{
+        let ok: bool = $c;
+        $crate::check!(ok, $m);
+        if !ok {
+            return;
         }
     }};
 }
